@@ -94,7 +94,7 @@ def run_job(job, workroot, gxx):
     if not e or rc < 0 or "internal compiler error" in err:
         return {"status": "inconclusive", "why": "g++ crashed (rc=%s)" % rc, "detail": err[-300:]}
     root = compz.bucket(e, BUCKETS) or compz.keyword_root_cause(err, compz.read_wit(job["wit"]), compz.C_KEYWORDS)
-    return {"status": "violation", "sig": compz.signature(job, "cpp:syntax:", root or compz.normalise(e)), "what": "g++ rejects the generated C++: " + e, "detail": err[:2000]}
+    return {"status": "violation", "sig": compz.signature(job, "cpp:syntax:", root or compz.normalise(e), closed=tuple(b for _, b in BUCKETS)), "what": "g++ rejects the generated C++: " + e, "detail": err[:2000]}
 
 
 def run(tier, seed, replay):
@@ -126,6 +126,9 @@ def run(tier, seed, replay):
                     if len(rep.samples) < 6:
                         rep.samples.append({"job": j["id"], "world": r["world"], "functions": r["funcs"], "generated_files": r["files"]})
                 elif r["status"] == "violation":
+                    tally = rep.extra.setdefault("violation_tally", {})
+                    k = "%s | %s" % (r["sig"], compz.normalise(r["what"].split(": ", 1)[-1]))
+                    tally[k] = tally.get(k, 0) + 1
                     rep.add_eval(vcommon.stable_hash(compz.read_wit(j["wit"])))
                     rep.violation(r["sig"], "%s [job %s]" % (r["what"], j["id"]), compz.job_replay(j, {"detail": r.get("detail", "")}))
                 elif r["status"] == "inconclusive":
